@@ -23,6 +23,7 @@ from translate_fn import Spec, INT, BOOL, BYTES, OPT
 GROUP = "Snep"
 ORDER = 60
 SC, SS, HC, HS = "snep/client.py", "snep/server.py", "handover/client.py", "handover/server.py"
+_CSOCK = {"client_socket.send": ("send", [BYTES], BOOL, False), "client_socket.recv": ("recv", [], BYTES, False)}
 _SOCK = {"socket.send": ("send", [BYTES], BOOL, False), "socket.recv": ("recv", [], BYTES, False)}
 
 SPECS = [
@@ -62,60 +63,88 @@ SPECS = [
          note="cut: the fragment loop and the return value; `miu` is `self.socket.getsockopt(SO_SNDMIU)` (>= 1), "
               "`self.socket.send` the oracle parameter `send`"),
     # ---- conditions, slices and protocol constants that sit between the socket calls (`expr=` cuts, pinned to the statement of the source they sit in by `path=`/`stmts=`)
-    Spec(GROUP, "snep_srv_empty", SS, "SnepServer._serve", [("data", BYTES)], path=[(3, "body"), (0, "body")], stmts=[1], expr="not data",
+    Spec(GROUP, "snep_srv_empty", SS, "SnepServer._serve", [("data", BYTES)], path=[(3, "body"), (0, "body")], stmts=[1], whole=True, expr="not data",
          note="cut: the condition `not data` (connection closed)"),
-    Spec(GROUP, "snep_srv_short", SS, "SnepServer._serve", [("data", BYTES)], path=[(3, "body"), (0, "body")], stmts=[2], expr="len(data) < 6",
+    Spec(GROUP, "snep_srv_short", SS, "SnepServer._serve", [("data", BYTES)], path=[(3, "body"), (0, "body")], stmts=[2], whole=True, expr="len(data) < 6",
          note="cut: the condition `len(data) < 6`"),
-    Spec(GROUP, "snep_srv_bad_version", SS, "SnepServer._serve", [("version", INT)], path=[(3, "body"), (0, "body")], stmts=[4], expr="(version >> 4) > 1",
+    Spec(GROUP, "snep_srv_bad_version", SS, "SnepServer._serve", [("version", INT)], path=[(3, "body"), (0, "body")], stmts=[4], whole=True, expr="(version >> 4) > 1",
          note="cut: the condition `(version >> 4) > 1`"),
     Spec(GROUP, "snep_srv_too_long", SS, "SnepServer._serve", [("length", INT)],
-         path=[(3, "body"), (0, "body")], stmts=[5], expr="length > self.max_acceptable_length",
+         path=[(3, "body"), (0, "body")], stmts=[5], whole=True, expr="length > self.max_acceptable_length",
          binds=[("self.max_acceptable_length", "max_acceptable_length", INT)],
          note="cut: the condition `length > self.max_acceptable_length`"),
     Spec(GROUP, "snep_srv_more", SS, "SnepServer._serve", [("data", BYTES), ("length", INT)],
-         path=[(3, "body"), (0, "body")], stmts=[6], expr="len(data) - 6 < length", nth=0, note="cut: the condition `len(data) - 6 < length` (if)"),
+         path=[(3, "body"), (0, "body")], stmts=[6], whole=True, expr="len(data) - 6 < length", nth=0, note="cut: the condition `len(data) - 6 < length` (if)"),
     Spec(GROUP, "snep_srv_more_loop", SS, "SnepServer._serve", [("data", BYTES), ("length", INT)],
-         path=[(3, "body"), (0, "body")], stmts=[6], expr="len(data) - 6 < length", nth=1, note="cut: the condition `len(data) - 6 < length` (while)"),
+         path=[(3, "body"), (0, "body")], stmts=[6], whole=True, expr="len(data) - 6 < length", nth=1, note="cut: the condition `len(data) - 6 < length` (while)"),
     Spec(GROUP, "snep_srv_fits", SS, "SnepServer._serve", [("data", BYTES), ("send_miu", INT)],
-         path=[(3, "body"), (0, "body")], stmts=[8], expr="len(data) <= send_miu", note="cut: the condition `len(data) <= send_miu`"),
+         path=[(3, "body"), (0, "body")], stmts=[8], whole=True, expr="len(data) <= send_miu", note="cut: the condition `len(data) <= send_miu`"),
     Spec(GROUP, "snep_srv_first", SS, "SnepServer._serve", [("data", BYTES), ("send_miu", INT)],
-         path=[(3, "body"), (0, "body")], stmts=[8], expr="data[0:send_miu]", note="cut: the first response fragment"),
+         path=[(3, "body"), (0, "body")], stmts=[8], expr="data[0:send_miu]", note="cut: the first response fragment (sub-expression: argument of `client_socket.send`; the whole call is `snep_srv_first_send`)"),
     Spec(GROUP, "snep_srv_frag", SS, "SnepServer._serve", [("data", BYTES), ("offset", INT), ("send_miu", INT)],
-         path=[(3, "body"), (0, "body")], stmts=[8], expr="data[offset:offset + send_miu]", note="cut: a further response fragment"),
+         path=[(3, "body"), (0, "body")], stmts=[8], expr="data[offset:offset + send_miu]", note="cut: a further response fragment (sub-expression: argument of `client_socket.send`; the whole call is `snep_srv_frag_send`)"),
     Spec(GROUP, "snep_srv_unsup_rsp", SS, "SnepServer._serve", [], path=[(3, "body"), (0, "body")], stmts=[4], expr='b"\\x10\\xE1\\x00\\x00\\x00\\x00"',
-         note="cut: the Unsupported Version response"),
+         note="cut: the Unsupported Version response (sub-expression: argument of `client_socket.send`; the whole call is `snep_srv_unsup_send`)"),
     Spec(GROUP, "snep_srv_reject_rsp", SS, "SnepServer._serve", [], path=[(3, "body"), (0, "body")], stmts=[5], expr='b"\\x10\\xFF\\x00\\x00\\x00\\x00"',
-         note="cut: the Reject response"),
+         note="cut: the Reject response (sub-expression: argument of `client_socket.send`; the whole call is `snep_srv_reject_send`)"),
     Spec(GROUP, "snep_srv_cont_rsp", SS, "SnepServer._serve", [], path=[(3, "body"), (0, "body")], stmts=[6], expr='b"\\x10\\x80\\x00\\x00\\x00\\x00"',
-         note="cut: the Continue response"),
+         note="cut: the Continue response (sub-expression: argument of `client_socket.send`; the whole call is `snep_srv_cont_send`)"),
     Spec(GROUP, "snep_srv_cont_req", SS, "SnepServer._serve", [], path=[(3, "body"), (0, "body")], stmts=[8], expr='b"\\x10\\x00\\x00\\x00\\x00\\x00"',
-         note="cut: the Continue request the server waits for"),
+         note="cut: the Continue request the server waits for (sub-expression of the test; the whole test is `snep_srv_cont_test`)"),
     Spec(GROUP, "snep_srv_is_get", SS, "SnepServer.process_snep_request", [("request_data", BYTES)],
-         path=[(2, "body")], stmts=[0], expr="request_data[1] == 1 and len(request_data) >= 10", note="cut: the GET dispatch condition"),
+         path=[(2, "body")], stmts=[0], whole=True, expr="request_data[1] == 1 and len(request_data) >= 10", note="cut: the GET dispatch condition"),
     Spec(GROUP, "snep_srv_is_put", SS, "SnepServer.process_snep_request", [("request_data", BYTES)],
-         path=[(2, "body"), (0, "orelse")], stmts=[0], expr="request_data[1] == 2", note="cut: the PUT dispatch condition"),
+         path=[(2, "body"), (0, "orelse")], stmts=[0], whole=True, expr="request_data[1] == 2", note="cut: the PUT dispatch condition"),
     Spec(GROUP, "snep_cli_more", SC, "recv_response", [("snep_response", BYTES), ("length", INT)],
-         path=[(0, "body")], stmts=[4], expr="len(snep_response) - 6 < length", nth=0, note="cut: the condition `len(snep_response) - 6 < length` (if)"),
+         path=[(0, "body")], stmts=[4], whole=True, expr="len(snep_response) - 6 < length", nth=0, note="cut: the condition `len(snep_response) - 6 < length` (if)"),
     Spec(GROUP, "snep_cli_more_loop", SC, "recv_response", [("snep_response", BYTES), ("length", INT)],
-         path=[(0, "body")], stmts=[4], expr="len(snep_response) - 6 < length", nth=1, note="cut: the condition `len(snep_response) - 6 < length` (while)"),
+         path=[(0, "body")], stmts=[4], whole=True, expr="len(snep_response) - 6 < length", nth=1, note="cut: the condition `len(snep_response) - 6 < length` (while)"),
     Spec(GROUP, "snep_cli_cont_req", SC, "recv_response", [], path=[(0, "body")], stmts=[4], expr='b"\\x10\\x00\\x00\\x00\\x00\\x00"',
-         note="cut: the Continue request the client sends"),
+         note="cut: the Continue request the client sends (sub-expression: argument of `socket.send`; the whole call is `snep_cli_cont_send`)"),
     Spec(GROUP, "snep_cli_fits", SC, "send_request", [("snep_request", BYTES), ("send_miu", INT)],
-         stmts=[0], expr="len(snep_request) <= send_miu", note="cut: the condition `len(snep_request) <= send_miu`"),
+         stmts=[0], whole=True, expr="len(snep_request) <= send_miu", note="cut: the condition `len(snep_request) <= send_miu`"),
     Spec(GROUP, "snep_cli_first", SC, "send_request", [("snep_request", BYTES), ("send_miu", INT)],
-         stmts=[1], expr="snep_request[0:send_miu]", note="cut: the first request fragment"),
+         stmts=[1], expr="snep_request[0:send_miu]", note="cut: the first request fragment (sub-expression of the test `not socket.send(..)`; the whole test is `snep_cli_first_test`)"),
     Spec(GROUP, "snep_cli_frag", SC, "send_request", [("snep_request", BYTES), ("offset", INT), ("send_miu", INT)],
-         stmts=[3], expr="snep_request[offset:offset+send_miu]", note="cut: a further request fragment"),
+         stmts=[3], whole=True, expr="snep_request[offset:offset+send_miu]", note="cut: a further request fragment"),
     Spec(GROUP, "snep_cli_cont_rsp", SC, "send_request", [], stmts=[2], expr='b"\\x10\\x80\\x00\\x00\\x00\\x00"',
-         note="cut: the Continue response the client waits for"),
-    Spec(GROUP, "snep_cli_get_status", SC, "SnepClient.get_octets", [("response", BYTES)], path=[(2, "body"), (3, "body")], stmts=[0], expr="response[1] != 0x81",
+         note="cut: the Continue response the client waits for (sub-expression of the test; the whole test is `snep_cli_cont_test`)"),
+    Spec(GROUP, "snep_cli_get_status", SC, "SnepClient.get_octets", [("response", BYTES)], path=[(2, "body"), (3, "body")], stmts=[0], whole=True, expr="response[1] != 0x81",
          note="cut: the condition `response[1] != 0x81` of get_octets"),
-    Spec(GROUP, "snep_cli_get_data", SC, "SnepClient.get_octets", [("response", BYTES)], path=[(2, "body"), (3, "body")], stmts=[1], expr="response[6:]",
+    Spec(GROUP, "snep_cli_get_data", SC, "SnepClient.get_octets", [("response", BYTES)], path=[(2, "body"), (3, "body")], stmts=[1], whole=True, expr="response[6:]",
          note="cut: the returned octets of get_octets"),
-    Spec(GROUP, "snep_cli_put_status", SC, "SnepClient.put_octets", [("response", BYTES)], path=[(1, "body"), (3, "body")], stmts=[0], expr="response[1] != 0x81",
+    Spec(GROUP, "snep_cli_put_status", SC, "SnepClient.put_octets", [("response", BYTES)], path=[(1, "body"), (3, "body")], stmts=[0], whole=True, expr="response[1] != 0x81",
          note="cut: the condition `response[1] != 0x81` of put_octets"),
     Spec(GROUP, "ho_srv_frag", HS, "HandoverServer.serve", [("response", BYTES), ("offset", INT), ("send_miu", INT)],
-         expr="response[offset:offset + send_miu]", note="cut: a response fragment of the handover server"),
+         whole=True, expr="response[offset:offset + send_miu]", note="cut: a response fragment of the handover server"),
+    # ---- the enclosing socket calls / tests of the sub-expression cuts above, as `whole=True` cuts over oracle sockets
+    Spec(GROUP, "snep_srv_unsup_send", SS, "SnepServer._serve", [], path=[(3, "body"), (0, "body")], stmts=[4], whole=True,
+         expr='client_socket.send(b"\\x10\\xE1\\x00\\x00\\x00\\x00")', opaque=_CSOCK,
+         note="cut: the whole statement that sends the Unsupported Version response; `client_socket.send` is `send`"),
+    Spec(GROUP, "snep_srv_reject_send", SS, "SnepServer._serve", [], path=[(3, "body"), (0, "body")], stmts=[5], whole=True,
+         expr='client_socket.send(b"\\x10\\xFF\\x00\\x00\\x00\\x00")', opaque=_CSOCK,
+         note="cut: the whole statement that sends the Reject response; `client_socket.send` is `send`"),
+    Spec(GROUP, "snep_srv_cont_send", SS, "SnepServer._serve", [], path=[(3, "body"), (0, "body")], stmts=[6], whole=True,
+         expr='client_socket.send(b"\\x10\\x80\\x00\\x00\\x00\\x00")', opaque=_CSOCK,
+         note="cut: the whole statement that sends the Continue response; `client_socket.send` is `send`"),
+    Spec(GROUP, "snep_srv_first_send", SS, "SnepServer._serve", [("data", BYTES), ("send_miu", INT)], path=[(3, "body"), (0, "body")], stmts=[8],
+         whole=True, expr="client_socket.send(data[0:send_miu])", opaque=_CSOCK,
+         note="cut: the whole statement that sends the first response fragment; `client_socket.send` is `send`"),
+    Spec(GROUP, "snep_srv_frag_send", SS, "SnepServer._serve", [("data", BYTES), ("offset", INT), ("send_miu", INT)],
+         path=[(3, "body"), (0, "body")], stmts=[8], whole=True, expr="client_socket.send(data[offset:offset + send_miu])", opaque=_CSOCK,
+         note="cut: the whole statement that sends a further response fragment; `client_socket.send` is `send`"),
+    Spec(GROUP, "snep_srv_cont_test", SS, "SnepServer._serve", [], path=[(3, "body"), (0, "body")], stmts=[8], whole=True,
+         expr='client_socket.recv() == b"\\x10\\x00\\x00\\x00\\x00\\x00"', opaque=_CSOCK,
+         note="cut: the whole test for the client's Continue request; `client_socket.recv` is `recv`"),
+    Spec(GROUP, "snep_cli_cont_send", SC, "recv_response", [], path=[(0, "body")], stmts=[4], whole=True,
+         expr='socket.send(b"\\x10\\x00\\x00\\x00\\x00\\x00")', opaque=_SOCK,
+         note="cut: the whole statement that sends the Continue request; `socket.send` is `send`"),
+    Spec(GROUP, "snep_cli_first_test", SC, "send_request", [("snep_request", BYTES), ("send_miu", INT)], stmts=[1],
+         whole=True, expr="not socket.send(snep_request[0:send_miu])", opaque=_SOCK,
+         note="cut: the whole test that sends the first request fragment; `socket.send` is `send`"),
+    Spec(GROUP, "snep_cli_cont_test", SC, "send_request", [], stmts=[2], whole=True,
+         expr='socket.recv() != b"\\x10\\x80\\x00\\x00\\x00\\x00"', opaque=_SOCK,
+         note="cut: the whole test for the server's Continue response; `socket.recv` is `recv`"),
 ]
 P = "NfcVerif.FnBridge.Snep."
 BRIDGE = {
@@ -126,9 +155,9 @@ BRIDGE = {
         "process_mid", "srv_idle_mid", "cli_await_mid", "recv_header_bridge", "cli_await_hdr_mid",
         "gen_recv_oversize_dropped", "process_bridge", "respond_bridge", "srv_finish_bridge", "srv_on_recv_bridge",
         "cli_finish_bridge", "cli_await_bridge", "cli_on_recv_bridge", "cli_send_bridge", "cli_start_bridge",
-        "send_request_bridge", "send_request_offers_every_fragment", "serve_header_peer", "recv_unpack_peer", "get_fields_peer",
-        "response_pack_peer", "ho_send_octets_bridge", "ho_send_offers_every_chunk", "ho_send_all_accepted", "ho_srv_frags_bridge",
-        "gen_serve_header_total", "gen_response_pack_shape", "gen_oversize_rejected", "gen_excess_never_partial")],
+        "send_request_bridge", "send_request_offers_every_fragment", "whole_calls_bridge", "serve_header_peer", "recv_unpack_peer",
+        "get_fields_peer", "response_pack_peer", "ho_send_octets_bridge", "ho_send_offers_every_chunk", "ho_send_all_accepted",
+        "ho_srv_frags_bridge", "gen_serve_header_total", "gen_response_pack_shape", "gen_oversize_rejected", "gen_excess_never_partial")],
     "properties": ["C06", "C07"],
 }
 
@@ -250,5 +279,10 @@ MUTATIONS = [
     ("snep_cli_fits", "single fragment limit", "if len(snep_request) <= send_miu:", "if len(snep_request) < send_miu:"),
     ("snep_cli_cont_rsp", "Continue code", 'b"\\x10\\x80\\x00\\x00\\x00\\x00"', 'b"\\x10\\x81\\x00\\x00\\x00\\x00"'),
     ("snep_cli_get_status", "success code", "if response[1] != 0x81:\n                    raise SnepError(response[1])\n\n                return", "if response[1] != 0x80:\n                    raise SnepError(response[1])\n\n                return"),
+    ("snep_srv_empty", "condition gains an operand", "if not data:", "if not data or data[0] == 0:"),
+    ("snep_srv_too_long", "condition gains an operand", "if length > self.max_acceptable_length:", "if length > self.max_acceptable_length and version:"),
+    ("snep_cli_fits", "truthiness test changed", "if len(snep_request) <= send_miu:", "if (len(snep_request) <= send_miu) is True:"),
+    ("snep_srv_first_send", "sent fragment gains an operand", "client_socket.send(data[0:send_miu])", "client_socket.send(data[0:send_miu] + b'\\0')"),
+    ("snep_cli_cont_test", "Continue test gains an operand", 'if socket.recv() != b"\\x10\\x80\\x00\\x00\\x00\\x00":', 'if socket.recv() != b"\\x10\\x80\\x00\\x00\\x00\\x00" and send_miu > 128:'),
     ("snep_get_excess", "NEUTRAL hex constant in decimal", "0xC1", "193"),
 ]
